@@ -122,7 +122,7 @@ def lean_prepare(pid, need_audit=True, log=None):
             res['driver_ok'] = True
         # count obligations from the source in any case
         src = (LEAN / 'PyamgV' / 'Props' / f'{pid}.lean').read_text()
-        declared = re.findall(r'^\s*theorem\s+([\w\'.]+)', src, flags=re.M)
+        declared = re.findall(r'^\s*(?:theorem|restate)\s+([\w\'.]+)', src, flags=re.M)
         res['obligations'] = len(declared)
         res['declared'] = declared
         if res['build_ok'] and need_audit:
@@ -449,7 +449,7 @@ def run_check(pid, tier, seed, replay=None):
 
     # evidence
     wall = time.time() - t0
-    if not replay:
+    if not replay and not os.environ.get('VERIF_NO_EVIDENCE'):
         ev = {
             'property_id': pid, 'tier': tier, 'seed': seed, 'level': 'proof',
             'coverage': {
